@@ -1024,8 +1024,9 @@ func (k *capRun) flush() {
 }
 
 // capScript drives one scenario; emit(now, v) performs an op, mark() is a
-// quiescent point.  Scripts are pure functions of their rng.
-type capScript func(rng randSrc, emit func(now int64, v int) bool, mark func() bool)
+// quiescent point, oldest() names the oldest value held under the eager
+// reading (workload steering only).  Scripts are pure functions of their rng.
+type capScript func(rng randSrc, emit func(now int64, v int) bool, mark func() bool, oldest func() int)
 
 type randSrc interface {
 	IntN(int) int
@@ -1047,7 +1048,7 @@ func capScripts() (names []string, ttls []int64, scripts []capScript) {
 		return true
 	}
 	// overflow by k, probe the oldest k, long-gone, middle, newest, re-inserts
-	add("overflow", 3*time.Hour, func(rng randSrc, emit func(int64, int) bool, mark func() bool) {
+	add("overflow", 3*time.Hour, func(rng randSrc, emit func(int64, int) bool, mark func() bool, oldest func() int) {
 		k := 1 + rng.IntN(300)
 		var now int64
 		n := wantCap + k
@@ -1078,6 +1079,28 @@ func capScripts() (names []string, ttls []int64, scripts []capScript) {
 		if !mark() {
 			return
 		}
+		// the point the property leaves open: a lookup that hits while the filter
+		// is full.  Hit the newest value, then ask for the value that was the
+		// oldest one held before the hit: "new" if room is made before every
+		// lookup, "seen" if only before storing.  Not judged, only counted.
+		for j := 0; j < 30; j++ {
+			now++
+			if !emit(now, n+1000+j) { // a fresh value: the filter is full under both readings
+				return
+			}
+			o := oldest()
+			now++
+			if !emit(now, wantCap+k-1) {
+				return
+			}
+			now++
+			if !emit(now, o) {
+				return
+			}
+		}
+		if !mark() {
+			return
+		}
 		for i := 0; i < 400; i++ { // around the front of the fifo (reading dependent after hits)
 			now++
 			if !emit(now, 2*k+rng.IntN(1200)) {
@@ -1099,7 +1122,7 @@ func capScripts() (names []string, ttls []int64, scripts []capScript) {
 		mark()
 	})
 	// expiry interleaved with overflow
-	add("overflow+expiry", 10*time.Second, func(rng randSrc, emit func(int64, int) bool, mark func() bool) {
+	add("overflow+expiry", 10*time.Second, func(rng randSrc, emit func(int64, int) bool, mark func() bool, oldest func() int) {
 		k := 1 + rng.IntN(300)
 		half := wantCap / 2
 		var now int64
@@ -1164,7 +1187,7 @@ func capScripts() (names []string, ttls []int64, scripts []capScript) {
 		mark()
 	})
 	// full filter, then a step below the oldest held entry
-	add("full-then-backwards", 3*time.Hour, func(rng randSrc, emit func(int64, int) bool, mark func() bool) {
+	add("full-then-backwards", 3*time.Hour, func(rng randSrc, emit func(int64, int) bool, mark func() bool, oldest func() int) {
 		k := rng.IntN(200) // may be 0: exactly full
 		now := int64(1000)
 		times := make([]int64, 0, wantCap+k)
@@ -1197,7 +1220,7 @@ func capScripts() (names []string, ttls []int64, scripts []capScript) {
 		mark()
 	})
 	// random walk around the capacity; in the middle the oldest ~30000 entries expire at once
-	add("walk", time.Millisecond, func(rng randSrc, emit func(int64, int) bool, mark func() bool) {
+	add("walk", time.Millisecond, func(rng randSrc, emit func(int64, int) bool, mark func() bool, oldest func() int) {
 		var now int64
 		n := wantCap - 50
 		if !fill(rng, emit, &now, 0, n) || !mark() {
@@ -1277,7 +1300,12 @@ func capacity(r *mon.Run) {
 						}
 						return viol == nil
 					}
-					scripts[si](mon.NewRand(r.Sub("capscript", si, rep)), emit, mark)
+					scripts[si](mon.NewRand(r.Sub("capscript", si, rep)), emit, mark, func() int {
+						if k.eager.size() == 0 {
+							return 0
+						}
+						return k.eager.q[k.eager.head].v
+					})
 					return k, viol
 				}
 				k, viol := run(r.Sub("capvals", si, rep))
@@ -1297,7 +1325,7 @@ func capacity(r *mon.Run) {
 				r.Count("capacity_scenarios", 1)
 				r.Distinct("nontrivial", fmt.Sprintf("cap/%s/%d", names[si], rep))
 				if rep == 0 && si == 0 {
-					r.Sample(map[string]any{"kind": "capacity scenario", "name": names[si], "ops": k.st.ops, "last_ops": k.recent[len(k.recent)-4:],
+					r.Sample(map[string]any{"kind": "capacity scenario", "name": names[si], "ops": k.st.ops, "last_ops": k.recent[max(0, len(k.recent)-4):],
 						"max_size": k.st.maxSize, "evicted_probes_new": k.st.evictedNew})
 				}
 			})
